@@ -641,7 +641,9 @@ class SqliteIndex(Index):
             template_values,
         )
 
-        return c
+        # fetch everything now: a half-consumed cursor over the temporary table would make
+        # the next search on this connection fail ("database table is locked")
+        return c.fetchall()
 
 
 class SqliteCollectionManifest(BaseCollectionManifest):
